@@ -186,8 +186,19 @@ def candidates(symbols, domain, rng, default_box, eps=None, primed=None, n_base=
         box[s.name] = (float(lo), float(hi))
     primed = primed or {}
     base_names = [n for n in names if n not in primed.values() and (eps is None or n != eps.name)]
-    for _ in range(n_base):
-        p = {n: rng.uniform(*box[n]) for n in base_names}
+    def draw(n, k):
+        lo, hi = box[n]
+        if k % 2 == 0 or lo == hi:
+            return rng.uniform(lo, hi)
+        # every other base point mixes magnitudes: each coordinate is, with probability 1/2, within 10^-1 .. 10^-13 of
+        # the box width from the point of the box closest to zero (tolerance tests look at small values)
+        if rng.random() < 0.5:
+            return rng.uniform(lo, hi)
+        anchor = min(max(0.0, lo), hi)
+        side = hi - anchor if hi - anchor >= anchor - lo else lo - anchor
+        return anchor + side * 10.0 ** (-rng.uniform(1, 13))
+    for k_base in range(n_base):
+        p = {n: draw(n, k_base) for n in base_names}
         eps_vals = [None]
         if eps is not None:
             eps_vals = [0.0] + [sg * sc for sc in SCALES[1:] for sg in (1.0, -1.0)]
